@@ -229,6 +229,8 @@ def m_callable(I, args, kwargs):
 @model(builtins.hasattr)
 def m_hasattr(I, args, kwargs):
     v, name = args
+    saved = I.cfg.get("_probing")
+    I.cfg["_probing"] = True
     try:
         I.getattr(v, name)
         return True
@@ -236,6 +238,8 @@ def m_hasattr(I, args, kwargs):
         if issubclass(pr.exc.cls, AttributeError):
             return False
         raise
+    finally:
+        I.cfg["_probing"] = saved
 
 
 @model(builtins.getattr)
@@ -243,12 +247,16 @@ def m_getattr(I, args, kwargs):
     v, name = args[0], args[1]
     if isinstance(name, SVal):
         raise Unsupported("getattr with symbolic name")
+    saved = I.cfg.get("_probing")
+    I.cfg["_probing"] = len(args) > 2
     try:
         return I.getattr(v, name)
     except PyRaise as pr:
         if len(args) > 2 and issubclass(pr.exc.cls, AttributeError):
             return args[2]
         raise
+    finally:
+        I.cfg["_probing"] = saved
 
 
 @model(builtins.setattr)
